@@ -1546,6 +1546,33 @@ class Spec(object):
             x = stray[0]
             return ('bad', 'an element operation writes [%s, %s), which is not part of what the operation specifies'
                     % (rd(x['a']), rd(x['b'])), {'write': [rd(x['a']), rd(x['b'])], 'kind': x['what']})
+        # ---- the value argument may refer to an element of this container (v.insert (p, n, v[0])) --------
+        if k == 0 and strays and c['bn'] in ('push_back', 'insert', 'resize', 'emplace_back', 'emplace'):
+            plist = param_list(c['f'])
+            for (a_off, b_off, src) in segs:
+                if src[0] != 'val':
+                    continue
+                V = src[1]
+                va = single_atom(V)
+                if va is None or va[0] != 'arg':
+                    continue
+                pi = [i_ for i_, p_ in enumerate(c['pos']) if p_ == va[1]]
+                if not pi or not plist[pi[0]].strip().endswith('const&'):
+                    continue          # rvalue arguments need not survive the operation
+                reads = [i_ for i_, e in enumerate(effs) if e[4] == 'fill' and e[5] is not None and same(e[5], V, eqs)]
+                dist = None
+                for i_, e in enumerate(effs):
+                    if is_temp(e[2]):
+                        continue
+                    moved_from_old = e[1] == 'move' and e[5] is not None and not is_temp(e[5]) and not same(e[5], V, eqs)
+                    if e[0] == 'destroy' or moved_from_old or (e[0] == 'assign' and inplace):
+                        dist = i_
+                        break
+                if dist is not None and any(r_ > dist for r_ in reads):
+                    return ('bad', 'the value argument is read after elements of the container were moved from, overwritten or destroyed; '
+                            'if it refers to one of them (v.%s (..., v[i])) the new elements do not get its value' % c['bn'],
+                            {'first_disturbance': self.eff_text(effs[dist], c),
+                             'later_read': self.eff_text(effs[[r_ for r_ in reads if r_ > dist][0]], c)})
         # ---- lifetime ledger of this path (reported under C03 as R03.7) -------------------------------
         if k == 0 and strays:
             E0 = lin_add(D0, lin_scale(atom(('init', self.cell(2))), s))
